@@ -1080,7 +1080,8 @@ class HeteroscedasticConditional(conditional.ConditionalGaussianPDF):
     
     def _get_omega_star(self, p_x: pdf.GaussianPDF, y: jnp.ndarray, W_i: Float[Array, "Dx+1"], a_i: Float[Array, "Dy"]):
         omega_star = self._get_omega_dagger(p_x=p_x, W_i=W_i)
-        omega_dagger = omega_star
+        # previous iterate: must differ from the start value, otherwise the loop below never runs
+        omega_dagger = jnp.full_like(omega_star, jnp.inf)
         iteration = 0
         cond_func = lambda val: jnp.logical_and(jnp.max(jnp.abs(val[0] - val[1])) > 1e-5, val[2] < 100)
         
